@@ -37,10 +37,13 @@ checks_for() { # patch file -> list of checks
   echo $ids | tr ' ' '\n' | sort -u | tr '\n' ' '
 }
 for d in "$@"; do
-  name=$(echo "$d" | sed 's#.*/\(C[0-9]*\)/\(b[0-9]\)$#\1-\2#')
+  name=$(echo "$d" | sed 's#.*/\(C[0-9]*\)/\(b[0-9]\)$#\1-\2#; s#.*/\(r[0-9]-C[0-9]*-b[0-9]\)$#\1#')
   git -C $SCR/repo checkout -q -- .
   if ! git -C $SCR/repo apply "$d/patch.diff" 2>/dev/null; then echo "$name: patch does not apply"; continue; fi
   ids=$(checks_for "$d/patch.diff")
+  if [ -n "${ONLY:-}" ]; then # restrict to the listed checks
+    keep=""; for c in $ids; do case " $ONLY " in *" $c "*) keep="$keep $c";; esac; done; ids="$keep"
+  fi
   res=""
   for cid in $ids; do
     out=$(cd $SCR/verif && ./run.sh $cid quick 2>&1); rc=$?
@@ -49,6 +52,6 @@ for d in "$@"; do
     res="$res $cid:$rc"
   done
   echo "$name checks:$res"
-  echo "{\"checks\": \"$res\"}" > "$d/benign_result.json"
+  if [ -z "${ONLY:-}" ]; then echo "{\"checks\": \"$res\"}" > "$d/benign_result.json"; else echo "{\"checks\": \"$res\", \"repo_head\": \"$HEAD\"}" > "$d/recheck.json"; fi
   git -C $SCR/repo checkout -q -- .
 done
